@@ -1113,13 +1113,19 @@ namespace chaiscript {
         }
 
         void process_octal() {
+          long long val = 0;
           if (!octal_matches.empty()) {
-            auto val = stoll(octal_matches, nullptr, 8);
-            match.push_back(char_type(val));
+            val = stoll(octal_matches, nullptr, 8);
+            if (val <= 0xFF) {
+              match.push_back(char_type(val));
+            }
           }
           octal_matches.clear();
           is_escaped = false;
           is_octal = false;
+          if (val > 0xFF) {
+            throw exception::eval_error("Octal escape sequence out of range");
+          }
         }
 
         void process_unicode() {
